@@ -116,23 +116,24 @@ def _frame_entry():
 
 def strategy(tier: str):
     max_bones = 5 if tier == 'quick' else 8
-    parent = st.one_of(st.just(-1), st.integers(0, 1 << 16), st.integers(0, 1 << 16), st.integers(0, 1 << 16))
-    bones = st.lists(
-        st.tuples(_bone_name(), parent).map(list),
-        min_size=2, max_size=max_bones, unique_by=lambda b: b[0],
-    )
+    def bones():
+        # a fresh strategy object per call: one_of() drops repeated identical alternatives
+        parent = st.one_of(st.just(-1), st.integers(0, 1 << 16).map(lambda i: i), st.integers(0, 1 << 16))
+        return st.lists(
+            st.tuples(_bone_name(), parent).map(list),
+            min_size=2, max_size=max_bones, unique_by=lambda b: b[0],
+        )
     frames = st.lists(
         st.tuples(st.integers(0, 30), st.lists(_frame_entry(), max_size=max_bones)).map(list),
         min_size=0, max_size=3, unique_by=lambda f: f[0],
     )
     return st.fixed_dictionaries({
-        # measured: Hypothesis favours the small alternative, so the single-bone case gets 1 of 6 slots (~30 % of draws)
-        'bones': st.one_of(bones, bones, bones, bones, bones,
+        'bones': st.one_of(bones(), bones(), bones(),
                            st.lists(st.tuples(_bone_name(), st.just(-1)).map(list), min_size=1, max_size=1)),
         # order in which the bones are put into the Mesh.bones dict (indices modulo remaining count)
         'dict_order': st.lists(st.integers(0, 1 << 16), max_size=max_bones),
         'frames': frames,
-        'tris': st.lists(_triangle(), max_size=3),
+        'tris': st.one_of(st.lists(_triangle(), max_size=3), st.lists(_triangle(), min_size=1, max_size=2)),
     })
 
 
